@@ -2,6 +2,7 @@ mod ast;
 mod c22;
 mod c23;
 mod c24;
+mod c24j;
 mod c28;
 mod c30;
 mod exec;
@@ -45,6 +46,26 @@ fn main() {
                     continue;
                 }
                 println!("{}\n// inputs: {:?}\n// ------", c22::text_of(&c), c.inputs);
+            }
+        }
+        "TRY" => {
+            // developer aid: FILE=<policy text> [FN=<function> ARGS='[[{"Int":1}],..]'] -> compile verdict and how each run ends
+            let text = std::fs::read_to_string(std::env::var("FILE").expect("FILE")).expect("readable");
+            match vmrun::compile_module(&text) {
+                Err(e) => println!("REJECTED {e:?}"),
+                Ok(m) => {
+                    println!("ACCEPTED");
+                    let machine = vmrun::machine_of(m);
+                    if let (Ok(f), Ok(a)) = (std::env::var("FN"), std::env::var("ARGS")) {
+                        let sets: Vec<Vec<interp::Val>> = serde_json::from_str(&a).expect("ARGS json");
+                        let prog = ast::Prog::default();
+                        for args in sets {
+                            let mut io = vmrun::RecIo::new();
+                            let out = vmrun::run_function(&machine, &mut io, &f, args.iter().map(|v| vmrun::to_vm(&prog, v)).collect());
+                            println!("{args:?} -> {:?} stack {:?}", out.end, out.stack);
+                        }
+                    }
+                }
             }
         }
         p => {
